@@ -3,6 +3,9 @@
 //                 pressure law against the independent enclosed volume, division eligibility per class, 3-sigma draws.
 //  sub "history": a real solver over non-interacting cells with generated growth rates, volume jumps forced by the
 //                 harness; per-iteration recurrence, removal below the minimum volume, no resurrection.
+#include <mutex>
+#include <cstring>
+
 #include "common/engine.hpp"
 #include "common/solverkit.hpp"
 #include "common/tissuegen.hpp"
@@ -178,6 +181,7 @@ struct HCase {
     int ncells = 3, threads = 1;
     std::vector<double> growth;  // per cell, in volumes per unit time
     std::vector<double> radius;
+    std::vector<double> cls;     // per cell: class among those subject to internal forces (0 epithelial, 2 lumen, 3 nucleus, 4 static)
     double dt = 1e-3, vmin_f = 0.3, pmax = 1e300;
     std::vector<HOp> ops;
     void write(vf::Writer& w) const {
@@ -185,6 +189,7 @@ struct HCase {
         w.nl();
         for (auto& o : ops) w.i(o.kind), w.u(o.k), w.d(o.f), w.i(o.n);
         w.nl();
+        w.vd(cls);
     }
     static HCase read(vf::Reader& r) {
         HCase c;
@@ -195,6 +200,7 @@ struct HCase {
             o.kind = (int)r.i(), o.k = (unsigned)r.u(), o.f = r.d(), o.n = (int)r.i();
             c.ops.push_back(o);
         }
+        if (r.more()) c.cls = r.vd();
         return c;
     }
 };
@@ -207,6 +213,7 @@ static rc::Gen<HCase> genH() {
         for (int i = 0; i < c.ncells; i++) {
             c.growth.push_back(*rc::gen::oneOf(rc::gen::just(0.0), uniform(-20, 20)));
             c.radius.push_back(*uniform(0.8, 1.25));
+            c.cls.push_back((double)*rc::gen::element(0, 0, 0, 2, 3, 4, 4));
         }
         c.dt = *rc::gen::element(1e-3, 5e-4, 2e-3);
         c.vmin_f = *rc::gen::element(0.3, 0.5, 0.05);
@@ -224,13 +231,27 @@ static rc::Gen<HCase> genH() {
     });
 }
 
+// enclosed volume of every cell at the moment its internal forces are computed (scheduling hook H3 at the top of
+// cell::apply_internal_forces), computed independently of the cell's cached value
+static sk::test_solver* g_solver = nullptr;
+static std::map<unsigned, ld> g_vol_at_force;
+static std::mutex g_vol_mu;
+static void on_sched(const char* tag, size_t idx) {
+    if (!g_solver || strcmp(tag, "apply_internal_forces") != 0) return;
+    auto& cl = g_solver->cells();
+    if (idx >= cl.size() || !cl[idx]) return;
+    const ld v = fabsl(vg::signed_volume(ct::snapshot(*cl[idx])));
+    std::lock_guard<std::mutex> lk(g_vol_mu);
+    g_vol_at_force[cl[idx]->get_id()] = v;
+}
+
 static std::string runH(const HCase& k, vf::Ctx& ctx) {
     ct::CellScope scope;
     // non-interacting cells: centres 5 radii apart
     tg::Tissue t;
     for (int i = 0; i < k.ncells; i++) {
         tg::CellDesc cd;
-        cd.cls = i == 1 ? 2 : 0;  // one lumen cell among epithelial cells
+        cd.cls = (size_t)i < k.cls.size() ? (int)k.cls[i] : (i == 1 ? 2 : 0);  // every class that is subject to internal forces
         cd.mesh = tg::ball(1, k.radius[i], V3(6.0 * i, 0.5 * i, -0.3 * i));
         t.cells.push_back(cd);
     }
@@ -267,11 +288,15 @@ static std::string runH(const HCase& k, vf::Ctx& ctx) {
         sk::test_solver* s;
         ct::CellScope* sc;
         ~Cleanup() {
+            simucell3d_verif::sched_point() = nullptr;
+            g_solver = nullptr;
             sc->add(s->cells());
             std::error_code ec;
             std::filesystem::remove_all(d, ec);
         }
     } cleanup{out, S.get(), &scope};
+    g_solver = S.get();
+    simucell3d_verif::sched_point() = on_sched;
     std::set<unsigned> dead;
     long removals = 0, clamps = 0, iters = 0;
     std::ostringstream os;
@@ -285,6 +310,7 @@ static std::string runH(const HCase& k, vf::Ctx& ctx) {
         };
         std::vector<Pre> pre;
         for (auto& c : S->cells()) pre.push_back({c->get_id(), c->get_target_volume(), c->get_growth_rate(), fabsl(vg::signed_volume(ct::snapshot(*c))), c});
+        g_vol_at_force.clear();
         try {
             S->run_iteration();
         } catch (const std::exception&) {
@@ -329,6 +355,18 @@ static std::string runH(const HCase& k, vf::Ctx& ctx) {
             if (fabsl(P - std::min<ld>(Pl, Pmax)) > 1e-12 * (1 + fabsl(Pl)) && !(fabsl(Pl - Pmax) < 1e-12)) {
                 os << "cell id " << p.id << ": pressure " << P << " but min(-K ln(V/Vt), Pmax) = " << (double)std::min<ld>(Pl, Pmax);
                 return os.str();
+            }
+            // ... and with V = the enclosed volume of the mesh at the moment the forces were computed, measured independently
+            // through the scheduling hook (a cached volume that is not refreshed is invisible to the comparison above)
+            auto iv = g_vol_at_force.find(p.id);
+            if (iv != g_vol_at_force.end()) {
+                const ld Pi = -logl(iv->second / (ld)vt);
+                if (fabsl(P - std::min<ld>(Pi, Pmax)) > 1e-9 * (1 + fabsl(Pi)) && !(fabsl(Pi - Pmax) < 1e-9)) {
+                    os << "cell id " << p.id << " (class " << it->second->get_cell_type_id() << "): pressure " << P << " but min(-K ln(V/Vt), Pmax) = " << (double)std::min<ld>(Pi, Pmax)
+                       << " with V = " << (double)iv->second << " the enclosed volume of the mesh the forces were computed on (the cell reports volume " << it->second->get_volume() << ")";
+                    return os.str();
+                }
+                ctx.count("pressure_checked_against_independent_volume_class_" + std::to_string(it->second->get_cell_type_id()));
             }
         }
         return "";
